@@ -561,6 +561,12 @@ def run_trading(rnd, S, cfgk, intensity=1.0, script=None, analyser=False, ids=No
                 call.update(api="order_value", args=(oid, v, None))
                 return api.order_value(oid, v)
             out.append(f10)
+
+            def f10b(call, before, oid=stocks[0], q=(0.7 + 0.1) * 1000):
+                # 799.9999999999999 shares: eight lots under the module's half-even 10-digit decimal context (7 if anything left the context rounding down)
+                call.update(api="order_shares", args=(oid, q, None))
+                return api.order_shares(oid, q)
+            out.append(f10b)
         # order_target_portfolio with the caller's limit prices (plain price, LimitOrder, or an (open, close) pair)
         if S.get("_otp") and stocks and "STOCK" in context.portfolio.accounts and reseed_key is None and srnd.random() < 0.2:
             picks = srnd.sample(stocks, min(len(stocks), srnd.choice([1, 2])))
